@@ -4,14 +4,13 @@ import "pgregory.net/rapid"
 
 var storeRealStub = map[string]string{
 	"queue.MemoryStore / queue.SQLiteStore (modernc SQLite)": "real",
-	"clock":                     "simulated (Clock via WithNowFunc/WithSQLiteNowFunc and verifclock rewrite)",
-	"SQLite checkpoint ticker":  "disabled (checkpoint is a program step)",
-	"long-poll (MaxWait)":       "not exercised (MaxWait=0)",
-	"queue.PostgresStore":       "not executed (no server in the sandbox)",
+	"clock":                    "simulated (Clock via WithNowFunc/WithSQLiteNowFunc and verifclock rewrite)",
+	"SQLite checkpoint ticker": "disabled (checkpoint is a program step)",
+	"long-poll (MaxWait)":      "not exercised (MaxWait=0)",
+	"queue.PostgresStore":      "not executed (no server in the sandbox)",
 }
 
 func storeNonTrivial(p *Program, r *Result) bool { return r.Ops >= 3 }
-
 
 func w(base map[string]int, over map[string]int) map[string]int {
 	out := map[string]int{}
@@ -80,11 +79,11 @@ func init() {
 
 var sysRealStub = map[string]string{
 	"config.Parse/Compile, app.newRuntimeState/loadAuth/startServers/reloadConfig, ingress.Server + authenticators, pullapi/admin handlers, queue store": "real (node assembled by app.VerifNewNode from generated Hookaidofile text)",
-	"run() glue (flags, signals, pid file, tracing, watcher, trend ticker)": "stub (left out)",
+	"run() glue (flags, signals, pid file, tracing, watcher, trend ticker)":                                                                              "stub (left out)",
 	"listeners / TCP / TLS": "not exercised: requests are handed to the http.Handler of the *http.Server that startServers built",
-	"clock":                "simulated (verifclock rewrite of time.Now/Since/Until)",
+	"clock":                 "simulated (verifclock rewrite of time.Now/Since/Until)",
 	"network (forward-auth call-outs, deliveries, DNS)": "simulated (simnet Transport + Resolver)",
-	"client side of every protocol":                      "stub (generated requests)",
+	"client side of every protocol":                     "stub (generated requests)",
 }
 
 func init() {
@@ -108,6 +107,8 @@ func init() {
 		"HMAC routes, small nonce pool, arrival times at and around the edges of [ts-tol, ts+tol] (clock on whole-second boundaries so that now == ts+tol is reached), invalid requests carrying the nonce first, config reloads between original and replay; oracle: per (route, nonce) at most one 202 during the life of the node", 1500, 60000)
 	regI("C12", IngressProfile{Auth: []string{"none", "none", "basic"}, Rate: true, Limits: true, MaxRoutes: 3, Backends: mem, Fanout: true, Reload: true},
 		"ingress part: bodies and header sets around max_body/max_headers (413), arrival-time sequences at route-level and global token-bucket limiters (window characterisation: admitted iff count <= burst + rps x window for every window; 429 otherwise; windows cut at reloads), queue_limits through ingress (503, partial fan-out keeps earlier copies); every refusal leaves the listing unchanged", 1500, 60000)
+	regI("C07", IngressProfile{Auth: []string{"none", "basic", "hmac", "forward"}, MaxRoutes: 3, Backends: mem, Fanout: true},
+		"ingress part: accepted requests with bodies containing NUL / 0xFF / invalid UTF-8 / CRLF / empty, header sets with repeated fields in several spellings, credential headers (Authorization, Proxy-Authorization, Cookie) and forward-auth copy_headers; oracle: the stored message (listed with payload and headers straight from the store) carries exactly the received bytes and the documented header map (canonical names, repeated values comma-joined, credentials dropped, copied forward-auth headers added)", 1200, 40000)
 	regI("C17", IngressProfile{Auth: []string{"hmac"}, Rotation: true, MaxRoutes: 2, Backends: mem},
 		"inbound part: secret_ref versions with validity windows (S1 valid until +1h exclusive, S2 valid from +30min inclusive); requests signed with each version at signed timestamps walked across the window boundaries; oracle: accepted iff signed with a version valid at the signed timestamp", 1200, 40000)
 }
